@@ -214,7 +214,24 @@ pub fn convert_once(case: &Case) -> Result<(Vec<(String, Vec<i16>)>, String), St
             Ok((sig, gds_bytes(&g)?))
         }
         1 => {
-            let lib = build_raw(case);
+            let mut lib = build_raw(case);
+            if case.two_cells {
+                // the layout cell is listed first and instantiates three further cells that are listed after it
+                let top = lib.cells.pop().unwrap();
+                let mut kids = vec![];
+                for k in 0..3 {
+                    let kid = Ptr::new(Cell::from(Layout { name: format!("later{k}"), insts: vec![], elems: vec![], annotations: vec![] }));
+                    top.write().map_err(|_| "lock".to_string())?.layout.as_mut().unwrap().insts.push(Instance { inst_name: format!("il{k}"), cell: kid.clone(), loc: Point::new(60 * k, 9), reflect_vert: false, angle: None });
+                    kids.push(kid);
+                }
+                let rest: Vec<Ptr<Cell>> = lib.cells.iter().cloned().collect();
+                let mut reordered = raw::utils::PtrList::new();
+                reordered.push(top);
+                for c in rest.into_iter().chain(kids) {
+                    reordered.push(c);
+                }
+                lib.cells = reordered;
+            }
             let sig = map_orders(&lib);
             let p = lib.to_proto().map_err(e)?;
             let bytes = proto::conv::to_bytes(&p);
